@@ -41,3 +41,23 @@ def encode(text):
 
 def septet_cost(text):
     return sum(1 if ch in BASIC_ENC else 2 for ch in text)
+
+
+def decode(septets):
+    """independent strict decoder of unpacked septets (None when not decodable)"""
+    out = []
+    i = 0
+    n = len(septets)
+    while i < n:
+        b = septets[i]
+        if b == ESC:
+            if i + 1 >= n or septets[i + 1] not in EXT:
+                return None
+            out.append(EXT[septets[i + 1]])
+            i += 2
+        elif b in BASIC:
+            out.append(BASIC[b])
+            i += 1
+        else:
+            return None
+    return ''.join(out)
